@@ -159,6 +159,15 @@ def gather():
                     for e in node.elts):
                 init = [e.value for e in node.elts]
                 break
+        if init is None:
+            # moved out of the function? any 5-int tuple/list of the module that is not one of the K tables
+            for node in ast.walk(ast.parse(_src(r))):
+                if isinstance(node, (ast.Tuple, ast.List)) and len(node.elts) == 5 and all(
+                        isinstance(e, ast.Constant) and isinstance(e.value, int) for e in node.elts):
+                    vals = [e.value for e in node.elts]
+                    if vals not in (list(r.KL), list(r.KR)):
+                        init = vals
+                        break
         g["rmdInit"] = init or []
     except Exception:
         g["rmdInit"] = []
@@ -179,6 +188,50 @@ def gather():
         g["saltPrefix"] = sl[0] if sl else ""
     except Exception:
         g["saltPrefix"] = ""
+    # --- behavioural probes (robust to refactoring); the AST values above are kept as fall-back -------------
+    try:
+        rec = []
+        saved = m["bip32"].hmac_sha512
+        m["bip32"].hmac_sha512 = lambda key, msg: (rec.append(bytes(key)), saved(key=key, msg=msg))[1]
+        try:
+            m["bip32"].PrvKeyNode.master_key(bip39_seed=bytes(range(16)))
+        finally:
+            m["bip32"].hmac_sha512 = saved
+        if rec:
+            g["masterKeyHmacKey"] = rec[0]
+    except Exception:
+        pass
+    try:
+        rec = []
+        saved = m["bip85"].hmac_sha512
+        m["bip85"].hmac_sha512 = lambda key, msg: (rec.append(bytes(key)), saved(key=key, msg=msg))[1]
+        try:
+            node = m["bip32"].PrvKeyNode.master_key(bip39_seed=bytes(range(16)))
+            m["bip85"].BIP85DeterministicEntropy(master_node=node).entropy("m/0'")
+        finally:
+            m["bip85"].hmac_sha512 = saved
+        if rec:
+            g["bip85Key"] = rec[-1]
+    except Exception:
+        pass
+    try:
+        import hashlib as _hl
+        rec = []
+        saved = _hl.pbkdf2_hmac
+
+        def spy(name, password, salt, iterations, dklen=None):
+            rec.append((bytes(salt), iterations))
+            return saved(name, password, salt, iterations, dklen)
+        _hl.pbkdf2_hmac = spy
+        try:
+            m["bip39"].bip39_seed_from_mnemonic("x", "")
+        finally:
+            _hl.pbkdf2_hmac = saved
+        if rec:
+            g["saltPrefix"] = rec[0][0].decode("utf-8")
+            g["pbkdf2Rounds"] = rec[0][1]
+    except Exception:
+        pass
     # address / WIF prefix bytes: behavioural probes (robust to refactoring)
     h = m["helper"]
     probe = bytes(range(1, 21))
@@ -210,8 +263,63 @@ def gather():
                 if isinstance(vals[0], ast.Constant) and isinstance(vals[2], ast.Constant):
                     return [vals[0].value, vals[2].value]
         return [0, 0]
-    g["bip85HexBounds"] = _bounds("hex")
-    g["bip85PwdBounds"] = _bounds("pwd")
+    try:
+        g["bip85HexBounds"] = _bounds("hex")
+        g["bip85PwdBounds"] = _bounds("pwd")
+    except Exception:
+        g["bip85HexBounds"] = g["bip85PwdBounds"] = [0, 0]
+    # behavioural probe of templates and bounds: record the path string handed to Bip32Path.parse
+    try:
+        B = m["bip85"].BIP85DeterministicEntropy
+        node = m["bip32"].PrvKeyNode.master_key(bip39_seed=bytes(range(16)))
+        b = B(master_node=node)
+        rec = []
+        savedp = m["bip85"].Bip32Path.parse
+
+        def spy_parse(s_):
+            rec.append(s_)
+            return savedp(s_)
+        m["bip85"].Bip32Path.parse = spy_parse
+        try:
+            def tpl_of(call, marks):
+                del rec[:]
+                try:
+                    call()
+                except Exception:
+                    pass
+                if not rec:
+                    return None
+                t_ = rec[0]
+                for mk in marks:
+                    t_ = t_.replace("/%d'" % mk, "/{}'", 1)
+                return t_
+            probes = {"bip39_mnemonic": tpl_of(lambda: b.bip39_mnemonic(word_count=24, index=59), [24, 59]),
+                      "wif": tpl_of(lambda: b.wif(index=59), [59]),
+                      "xprv": tpl_of(lambda: b.xprv(index=59), [59]),
+                      "hex": tpl_of(lambda: b.hex(num_bytes=61, index=59), [61, 59]),
+                      "pwd": tpl_of(lambda: b.pwd(pwd_len=61, index=59), [61, 59])}
+            for k_, v_ in probes.items():
+                if v_:
+                    tpl[k_] = v_
+
+            def accepted(fn):
+                ok = []
+                for n_ in range(0, 200):
+                    del rec[:]
+                    try:
+                        fn(n_)
+                        ok.append(n_)
+                    except Exception:
+                        if rec:          # got as far as deriving: the bound check passed
+                            ok.append(n_)
+                return [min(ok), max(ok)] if ok else [0, 0]
+            g["bip85HexBounds"] = accepted(lambda n_: b.hex(num_bytes=n_, index=0))
+            g["bip85PwdBounds"] = accepted(lambda n_: b.pwd(pwd_len=n_, index=0))
+        finally:
+            m["bip85"].Bip32Path.parse = savedp
+        g["bip85Templates"] = tpl
+    except Exception:
+        pass
     # CLI bounds: probe the validators with a binary search-free direct call
     main = m["__main__"]
     def _max_ok(fn):
